@@ -289,6 +289,37 @@ func stripReceiverFromArgs(signature string) (string, error) {
 	return fmt.Sprintf("func(%s", fields[4]), nil
 }
 
+// hasMethodsOf reports whether the method set of the interpreted type t contains
+// the methods of the interface type it, with the same signatures.
+func hasMethodsOf(t, it *itype) bool {
+	m0, m1 := t.methods(), it.methods()
+	if len(m0) < len(m1) {
+		return false
+	}
+	for k, meth1 := range m1 {
+		meth0, ok := m0[k]
+		if !ok {
+			return false
+		}
+		// As far as we know this equality check can fail because they are two ways to
+		// represent the signature of a method: one where the receiver appears before the
+		// func keyword, and one where it is just a func signature, and the receiver is
+		// seen as the first argument. That's why if that equality fails, we try harder to
+		// compare them afterwards. Hopefully that is the only reason this equality can fail.
+		if meth0 == meth1 {
+			continue
+		}
+		if lookupFieldOrMethod(t, k) == nil {
+			return false
+		}
+		meth0, err := stripReceiverFromArgs(meth0)
+		if err != nil || meth0 != meth1 {
+			return false
+		}
+	}
+	return true
+}
+
 func typeAssertShort(n *node) {
 	typeAssert(n, true, false)
 }
@@ -349,48 +380,7 @@ func typeAssert(n *node, withResult, withOk bool) {
 				}
 				return next
 			}
-			m0 := v.node.typ.methods()
-			m1 := typ.methods()
-			if len(m0) < len(m1) {
-				ok = false
-				if !withOk {
-					panic(n.cfgErrorf("interface conversion: %v is not %v", v.node.typ.id(), typID))
-				}
-				return next
-			}
-
-			for k, meth1 := range m1 {
-				var meth0 string
-				meth0, ok = m0[k]
-				if !ok {
-					break
-				}
-				// As far as we know this equality check can fail because they are two ways to
-				// represent the signature of a method: one where the receiver appears before the
-				// func keyword, and one where it is just a func signature, and the receiver is
-				// seen as the first argument. That's why if that equality fails, we try harder to
-				// compare them afterwards. Hopefully that is the only reason this equality can fail.
-				if meth0 == meth1 {
-					continue
-				}
-				tm := lookupFieldOrMethod(v.node.typ, k)
-				if tm == nil {
-					ok = false
-					break
-				}
-
-				var err error
-				meth0, err = stripReceiverFromArgs(meth0)
-				if err != nil {
-					ok = false
-					break
-				}
-
-				if meth0 != meth1 {
-					ok = false
-					break
-				}
-			}
+			ok = hasMethodsOf(v.node.typ, typ)
 			if !ok {
 				if !withOk {
 					panic(n.cfgErrorf("interface conversion: %v is not %v", v.node.typ.id(), typID))
@@ -3281,7 +3271,7 @@ func _case(n *node) {
 					}
 					if v := val.node; v != nil {
 						for _, typ := range types {
-							if v.typ.id() == typ.id() || isInterfaceSrc(typ) && v.typ.methods().contains(typ.methods()) {
+							if v.typ.id() == typ.id() || isInterfaceSrc(typ) && hasMethodsOf(v.typ, typ) {
 								return tnext
 							}
 						}
@@ -3358,7 +3348,7 @@ func _case(n *node) {
 							destValue(f).Set(vi.value)
 							return tnext
 						}
-						if isInterfaceSrc(typ) && vi.node.typ.methods().contains(typ.methods()) {
+						if isInterfaceSrc(typ) && hasMethodsOf(vi.node.typ, typ) {
 							destValue(f).Set(v)
 							return tnext
 						}
@@ -3415,7 +3405,7 @@ func _case(n *node) {
 				if vi, ok := val.Interface().(valueInterface); ok {
 					if v := vi.node; v != nil {
 						for _, typ := range types {
-							if v.typ.id() == typ.id() || isInterfaceSrc(typ) && v.typ.methods().contains(typ.methods()) {
+							if v.typ.id() == typ.id() || isInterfaceSrc(typ) && hasMethodsOf(v.typ, typ) {
 								destValue(f).Set(val)
 								return tnext
 							}
@@ -3482,7 +3472,7 @@ func implementsInterface(v reflect.Value, t *itype) bool {
 	if !ok {
 		return false
 	}
-	return vi.node != nil && vi.node.typ.methods().contains(t.methods())
+	return vi.node != nil && hasMethodsOf(vi.node.typ, t)
 }
 
 func appendSlice(n *node) {
